@@ -329,6 +329,7 @@ class Dec:
     def __init__(self, fn):
         self.fn = fn
         self.tmp = 0
+        self.aux = []      # hoisted loop bodies: (name, Lean type, lines)
 
     def fresh(self):
         self.tmp += 1
@@ -799,6 +800,20 @@ class Dec:
             env.vals[p] = Val(nm, v.ty, v.repr)
         env.noread = env.noread and inner.noread
 
+    def emit_loop(self, comb, name, elem_ty, sub, count, env, out):
+        """`let name ← comb body count`; a body that mentions no outer local becomes a definition of its own
+        (`<function>_body<k>`), so that lemmas can be stated about it."""
+        outer = {v.name for v in env.vals.values()} | {env.buf_size}
+        toks = set(re.findall(r"[A-Za-z_][A-Za-z_0-9']*", " ".join(sub)))
+        if not (outer & toks):
+            bname = "%s_body%d" % (self.fn["lean"], len(self.aux) + 1)
+            self.aux.append((bname, STRUCTS[elem_ty[7:]]["ty"], sub))
+            out.append("let %s ← %s %s %s" % (name, comb, bname, count))
+        else:
+            out.append("let %s ← %s (do" % (name, comb))
+            out.extend("    " + l for l in sub)
+            out[-1] = out[-1] + ") " + count
+
     def no_return(self, r):
         if r is not None:
             raise Unsupported("return inside a nested block", r)
@@ -875,9 +890,7 @@ class Dec:
         for p in bound_vars:
             pass
         name = lean_ident(vpath)
-        out.append("let %s ← Cur.forCount (do" % name)
-        out.extend("    " + l for l in sub)
-        out[-1] = out[-1] + ") " + bound
+        self.emit_loop("Cur.forCount", name, elem_ty, sub, bound, env, out)
         env.vals[vpath] = Val(name, vty, "obj")
         env.fresh_vec.discard(vpath)
         env.noread = False
@@ -916,9 +929,7 @@ class Dec:
             if root in env.decl and (p not in env.vals or env.vals[p] is not v):
                 raise Unsupported("loop body assigns the outer variable " + p, body)
         name = lean_ident(vpath)
-        out.append("let %s ← Cur.forEach (do" % name)
-        out.extend("    " + l for l in sub)
-        out[-1] = out[-1] + ") " + env.sized_vec[vpath]
+        self.emit_loop("Cur.forEach", name, elem_ty, sub, env.sized_vec[vpath], env, out)
         env.vals[vpath] = Val(name, vty, "obj")
         del env.sized_vec[vpath]
         env.noread = False
@@ -979,7 +990,12 @@ class Dec:
             lty = "List %s" % STRUCTS[rty[4:]]["ty"] if rty.startswith("vec:") else STRUCTS[rty[7:]]["ty"]
             head = "def %s : Cur (%s) := (do" % (fn["lean"], lty)
         out[-1] = out[-1] + ")"
-        return [head] + ["  " + l for l in out]
+        res = []
+        for bname, bty, sub in self.aux:
+            res += ["def %s : Cur (%s) := (do" % (bname, bty)] + ["  " + l for l in sub]
+            res[-1] += ")"
+            res.append("")
+        return res + [head] + ["  " + l for l in out]
 
 
 def refers_to(n, name):
